@@ -319,8 +319,11 @@ func c17Check(e *env, batch []c17Pending) {
 			}
 		}
 		// ---- token correspondence: the real scanner reads the real String() as the items
-		//      the Spec's tokens_of gives for this tree (this is the step the theorems
-		//      leave to the correspondence) ----
+		//      the Spec's tokens_of gives for this tree.  For expressions this is also a
+		//      theorem about the scanner MODEL (Properties/LexPrint.v lex_expr_print, used by
+		//      C17_text_roundtrip): here it ties that model's claim to the real scanner.
+		//      For print commands (directives, begin-tag state) no string-level theorem
+		//      exists: that case rests on this correspondence alone ----
 		if b.class == "ok" && !c17Unsafe(strings.TrimSuffix(printed[i], "}")) {
 			var lexed []parse.VerifItem
 			if b.c.Kind == "expr" {
